@@ -52,7 +52,7 @@ CLAIMS = {
         note='Modelled not verified: the callback protocol inside LogicSim.c_prop (Model/LogicSimModel.v prop1_cb).'),
     'C03': dict(
         technique='Coq proof of transition-parity / initial-value invariants of a Gallina transcription of _wave_eval; whole-memory correspondence',
-        text='Proof (per gate evaluation full, circuit level by correspondence). For ANY lookup table, ANY well-formed operand waveforms of '
+        text='Proof (full at op-list level). CIRCUIT LEVEL: for any op list, delays >= 0, capacities >= 4 and well-formed input waveforms every signal\'s waveform is well formed, starts at the Boolean (LUT) evaluation of the initial values and ends by parity at the Boolean evaluation of the final values, overflow or not (logical relation over the op list; with C01 the Boolean evaluation of SimOps\' op list is the netlist function). PER GATE: for ANY lookup table, ANY well-formed operand waveforms of '
              'any length, ANY non-negative delay tables and ANY capacity >= 4 the transcription of _wave_eval terminates, ends (by parity) at '
              'the LUT value of the operands\' final values -- also when transitions are dropped by overflow -- starts at the LUT value of '
              'their initial values and yields a well-formed waveform within capacity (so the facts compose along op lists). The '
@@ -61,24 +61,27 @@ CLAIMS = {
         design_ref='5/C03',
         note='Modelled not verified: _wave_eval, s_to_c, c_to_s, SimOps (hand transcriptions). Time is modelled as extended integers: '
              'float32/float64 arithmetic is assumed exact on the integer grid with absorbing sentinels; off-grid rounding is not modelled. '
-             'The circuit-level composition (logical relation over op lists + memory map) is not yet a single theorem.'),
+             'The theorems are at line level (each signal carries its waveform up to the terminator); the flat waveform memory with capacities and reuse is tied by correspondence and the C08 certificate.'),
     'C04': dict(
-        technique='whole-memory correspondence of the _wave_eval transcription + independent STA / shift / scale / monotonicity oracle; per-gate theorems pending',
-        text='Proof (partial): the per-gate theorems planned for this property (every emitted time is an operand time plus one of its '
-             'delays; shift and scale equivariance by a simulation relation; strict monotonicity for polarity-free delays) are being '
-             'proved over Model/WaveEval.v and are listed in the evidence once they compile; until then this property is decided by the '
-             'model/implementation correspondence plus an independent static-timing oracle, shifted (+16, -5) and scaled (x4, x1/2) reruns.',
+        technique='Coq proofs: per-gate emit-is-sum, shift/scale equivariance (simulation relation), strict monotonicity; circuit-level STA window over any op list; whole-memory correspondence; STA/shift/scale/emit-sum/monotonicity oracle incl. single-gate stress',
+        text='Proof (full at op-list level on the exact time grid). PER GATE (any LUT, operands, delays): every emitted time is an operand '
+             'time plus one of that operand line\'s four delays; shifting all operand times by delta shifts the result by exactly delta and '
+             'scaling times and delays by any k>0 (in particular powers of two) scales it, counts and overflow unchanged; with polarity-free '
+             'delays and increasing operands the result is strictly increasing (through overflow and pulse filtering). CIRCUIT LEVEL: for '
+             'any op list every finite transition of every signal lies inside the window static timing analysis of the annotated op list '
+             'permits. Tied to the code by whole-memory correspondence; oracle: independent STA over the netlist, per-gate emit-is-sum on '
+             'the implementation\'s waveforms, shifted (+16,-5) and scaled (x4, x1/2) reruns, single-gate stress with simultaneous arrivals.',
         design_ref='5/C04',
-        note='As C03. Theorems of Proofs/WaveEquiv.v are added to the obligations when integrated.'),
+        note='As C03: time is the integer/dyadic grid (float rounding off the grid is not modelled); circuit-level shift/scale equivariance follows from the per-gate theorems by the same induction but is checked by reruns, not stated as one theorem.'),
     'C05': dict(
         technique='Coq proofs: exhaustive hazard-soundness of the 8-valued algebra per primitive + no-change-no-edge invariant of _wave_eval; correspondence of both simulators',
-        text='Proof (per op full, circuit level by correspondence). (1) For every primitive and all known operand values: if the documented '
+        text='Proof (full at op-list level). CIRCUIT LEVEL: for any op list over the 33 opcodes, delays >= 0, capacities >= 4: if every input waveform is predicted by its 8-valued code (same init/final; no transition unless the code shows activity) then so is every signal -- a plain 0/1 of 8-valued logic simulation implies a transition-free waveform, and init/final agree. PER OP: (1) For every primitive and all known operand values: if the documented '
              '8-valued algebra yields a plain 0/1 then the primitive is constant on the cube spanned by the active operands (exhaustive). '
              '(2) For any gate evaluation: if the LUT is constant on the cube spanned by the operands that have finite transitions, no '
              'transition is produced. (3) init/final of both simulators equal the Boolean function of init/final (C02, C03). Both '
              'simulators are run on the same circuits/stimuli and compared including the activity bit.',
         design_ref='5/C05',
-        note='As C02 and C03; the composition of (1) and (2) along a whole circuit is argued in DESIGN.md, not yet one Coq theorem.'),
+        note='As C02 and C03 (line-level semantics; memory map by certificate and correspondence).'),
     'C06': dict(
         technique='Coq proofs for the code-path / lane / release-order clauses + differential execution over all option pairs with option-parametric models',
         text='Proof (partial). Proved: the mock-GPU launch runs every in-bounds kernel instance exactly once (so the GPU path applies the same per-element functions as the CPU loops), lane independence of the bit-parallel kernels, irrelevance of the order in which released memory is freed. Not a theorem: c_reuse / strip_forks / dataset invariance -- the Coq models of SimOps/LogicSim/WaveSim take c_reuse and strip_forks as '
